@@ -657,3 +657,37 @@ Example Mds_recovers_euclidean_full_nonvacuous :
   ascending 4 exr_Lam /\
   (forall c, c < 1 -> (exr_s c * exr_s c)%Qc = qmax0 (exr_Lam (4 - 1 + c)%nat)).
 Proof. exact exr_ok. Qed.
+
+(* 22. Y Y^T = B EXACTLY when B = Z Z^T with Z an N x r configuration, r <= d (any ascending
+       orthonormal eigen-answer, sqrt answers for max(lambda,0)); and the Kernel PCA counterpart of
+       theorem 21: linear kernel on points with r <= d coordinates => all distances reproduced. *)
+Theorem Mds_gram_recovered :
+  forall (n r d : nat) (Z V B : mat Qc) (lam s : vec Qc),
+    r <= d -> d <= n ->
+    (forall i i', i < n -> i' < n -> B i i' = sumn r (fun j => (Z i j * Z i' j)%F)) ->
+    full_contract n B V lam ->
+    meq n n (mmul n V (mtrans V)) mI ->
+    ascending n lam ->
+    (forall c, c < d -> (s c * s c)%Qc = qmax0 (lam (n - d + c)%nat)) ->
+    let Y := scale_cols (select_cols n V (n - d, d)) s in
+    forall a b, a < n -> b < n -> mmul d Y (mtrans Y) a b = B a b.
+Proof. exact gram_recovered_Qc. Qed.
+Print Assumptions Mds_gram_recovered.
+
+Theorem Mds_kpca_linear_recovers_euclidean :
+  forall (N r d : nat) (X V : mat Qc) (Lam s : vec Qc) (kern : mat Qc),
+    N <> 0 -> r <= d -> d <= N ->
+    (forall i j, i < N -> j < N -> i <= j -> kern i j = dot r (mrow X i) (mrow X j)) ->
+    full_contract N (kpca_matrix N kern) V Lam ->
+    meq N N (mmul N V (mtrans V)) mI ->
+    ascending N Lam ->
+    (forall c, c < d -> (s c * s c)%Qc = qmax0 (Lam (N - d + c)%nat)) ->
+    let Y := scale_cols (select_cols N V (N - d, d)) s in
+    forall i j, i < N -> j < N -> sqdist d Y i j = sqdist r X i j.
+Proof. exact kpca_linear_recovers_euclidean_Qc. Qed.
+Print Assumptions Mds_kpca_linear_recovers_euclidean.
+
+Example Mds_kpca_linear_nonvacuous :
+  (forall i j, i < 4 -> j < 4 -> i <= j -> exr_kern i j = dot 1 (mrow exr_X i) (mrow exr_X j)) /\
+  full_contract 4 (kpca_matrix 4 exr_kern) exr_V exr_Lam.
+Proof. exact exr_kpca_ok. Qed.
